@@ -75,10 +75,11 @@ def split_off(v):
 
 
 class Event:
-    __slots__ = ("kind", "node", "block", "a", "b", "c")
+    __slots__ = ("kind", "node", "block", "a", "b", "c", "outs")
 
     def __init__(self, kind, node, block, a=None, b=None, c=None):
         self.kind, self.node, self.block, self.a, self.b, self.c = kind, node, block, a, b, c
+        self.outs = {}
 
     def __repr__(self):
         if self.kind == "call":
@@ -395,7 +396,8 @@ class APE:
         cr = self.cg.const_return(self.unit, callee) if callee else None
         if cr is not None:
             rv = ("c", cr)
-        st.events.append(Event("call", n, B.id, name, argv, rv))
+        cev = Event("call", n, B.id, name, argv, rv)
+        st.events.append(cev)
         if not pure:
             only_locals = not other
             for i in sorted(widx):
@@ -410,10 +412,23 @@ class APE:
                         for k in [k for k in st.env if k.startswith(key + "->") or k.startswith("*" + key)]:
                             del st.env[k]
                         st.env[key] = ("s", "%s.out%d#%d" % (name, i, st.fresh))
+                        cev.outs[i] = st.env[key]
                         continue
                 only_locals = False
             if not only_locals:
-                self._invalidate_memory(st)
+                wf = self.cg.call_wfields(self.unit, n, self.f)
+                if wf is None:
+                    self._invalidate_memory(st)
+                else:
+                    # type-based refinement: only keys ending in a field the callee may store to
+                    st.epoch += 1
+                    for k in [k for k in st.env if not self._is_var_key(k)]:
+                        last = k.replace("->", ".").rsplit(".", 1)[-1] if ("->" in k or "." in k) else None
+                        if last is None or "[" in last:
+                            if "*" in wf or last is None:
+                                del st.env[k]
+                        elif last in wf:
+                            del st.env[k]
         st.nodeval[strip(n)["id"]] = rv
         return rv
 
